@@ -225,6 +225,21 @@ def oracle_ble(case, out):
     return bad
 
 
+def oracle_enc(fs, op, tid, iid, d, impl):
+    """encode_pdu called directly, on the property's domain."""
+    if not (fs >= 8 and 0 <= tid <= 255 and 0 <= iid <= 65535 and len(d) <= 65535):
+        return None
+    if not impl.startswith("ok"):
+        return ("ble-write:encode-raises", f"encode_pdu(fs={fs}, tid={tid}, iid={iid}, len={len(d)}) raises: {impl}")
+    frs = [unhx(t) for t in impl.split(" ")[1:] if t != "."]
+    if any(len(f) > fs for f in frs):
+        return ("ble-write:fragment-exceeds-size", f"encode_pdu(fs={fs}, len={len(d)}): fragment sizes {[len(f) for f in frs][:6]} exceed {fs}")
+    if ref.acc_reassemble(frs) != (op, tid, iid, bytes(d)):
+        return ("ble-write:reassembly", f"encode_pdu(fs={fs}, tid={tid}, iid={iid}, len={len(d)}): a conformant accessory reassembles "
+                f"{ref.acc_reassemble(frs)} instead of the request")
+    return None
+
+
 # ---------------------------------------------------------------- generators: BLE
 def mk_resp(r, tid_free=True, maxlen=24):
     """A conformant random response (status, body, cut)."""
@@ -591,17 +606,25 @@ def body_decodable(raw):
     return items is not None and 1 in dict(items)
 
 
-def oracle_coap(case, out):
-    """Attribution oracle on the outcome-vector domain (independent of the model)."""
-    bad = []
-    n = case["n"]
-    exp = [ref.coap_expected(i, it) for i, it in enumerate(case["items"])]
-    want = "ok " + " ".join(("b:" + hx(v)) if k == "body" else f"s:{v}" for k, v in exp)
-    # request side: the accessory must see tid i / iid_i / data_i for item i
+def oracle_coap_request(case, out):
+    """request side: the accessory must see tid i / iid_i / data_i for item i"""
+    n = len(case["iids"])
+    if not (n == len(case["datas"]) and 1 <= n <= 256 and all(0 <= i <= 65535 for i in case["iids"])
+            and all(len(d) <= 65535 for d in case["datas"])):
+        return []
     req = ref.coap_parse_request(unhx(out["request"])) if out["request"] else None
     want_req = [(case["op"], i, case["iids"][i], bytes(case["datas"][i])) for i in range(n)]
     if req != want_req:
-        bad.append(("coap-request:tid-or-order", f"batch request parses as {str(req)[:120]} instead of tid=i/iid_i/data_i"))
+        return [("coap-request:tid-or-order", f"batch request parses as {str(req)[:120]} instead of tid=i/iid_i/data_i")]
+    return []
+
+
+def oracle_coap(case, out):
+    """Attribution oracle on the outcome-vector domain (independent of the model)."""
+    n = case["n"]
+    exp = [ref.coap_expected(i, it) for i, it in enumerate(case["items"])]
+    want = "ok " + " ".join(("b:" + hx(v)) if k == "body" else f"s:{v}" for k, v in exp)
+    bad = oracle_coap_request(case, out)
     if out["results"] != want:
         got = out["results"].split(" ")[1:] if out["results"].startswith("ok") else []
         slug = "coap-decode:result-misattributed"
@@ -657,12 +680,15 @@ def _run(ctx, tier, seed):
     model = drv.batch([f"enc {fs} {op} {tid} {iid} {hx(d)}" for fs, op, tid, iid, d in enc_cases])
     for (fs, op, tid, iid, d), m in zip(enc_cases, model):
         impl = impl_encode_direct(fs, op, tid, iid, d)
-        if impl != m:
+        orc = oracle_enc(fs, op, tid, iid, d, impl)
+        if orc:
+            add_v(orc[0], orc[1], True, stream="enc", case=dict(fs=fs, op=op, tid=tid, iid=iid, data=hx(d)), impl=impl[:2000])
+        elif impl != m:
             add_v("enc:model-mismatch", f"encode_pdu(fs={fs}, tid={tid}, iid={iid}, len={len(d)}): implementation {impl[:90]} != model {m[:90]}",
                   False, stream="enc", case=dict(fs=fs, op=op, tid=tid, iid=iid, data=hx(d)), impl=impl, model=m,
                   broken="correspondence Model/Pdu.v ble_encode <-> aiohomekit/pdu.py encode_pdu")
         cov.case(f"e{fs},{op},{tid},{iid},{hx(d)}", True, enc_fs=fs, enc_result=impl.split(" ")[0],
-                 sample=dict(stream="enc", fs=fs, tid=tid, iid=iid, len=len(d), impl=impl[:60]) if cov.evaluations % 97 == 0 else None)
+                 sample=dict(stream="enc", fs=fs, tid=tid, iid=iid, len=len(d), impl=impl[:60]) if cov.evaluations % 211 == 5 else None)
 
     # ---- ble
     ble_cases = gen_ble(tier, rng(seed, "c17ble"))
@@ -711,7 +737,7 @@ def _run(ctx, tier, seed):
         cov.case(f"b{c['fs']},{c['mode']},{c['op']},{c['iid']},{hx(c['body'])},{c['resp']!r},{c['c0']},{c['d0']}",
                  bool(o["writes"]) or not o["read"].startswith("ok"),
                  sample=dict(stream="ble:" + c["stream"], fs=c["fs"], body_len=len(c["body"]), mode=c["mode"], n_writes=len(o["writes"]),
-                             resp_cut=c["resp"]["lens"][:8], faults=faults, impl_read=o["read"][:60]) if i % 4001 == 0 else None,
+                             resp_cut=c["resp"]["lens"][:8], faults=faults, impl_read=o["read"][:60]) if i % 9001 == 17 else None,
                  ble_stream=c["stream"], ble_mode=c["mode"], ble_fs=c["fs"] if c["fs"] in REAL_FS else ("8..64" if 8 <= c["fs"] <= 64 else "other"),
                  ble_nfrags=min(len(o["writes"]), 12) if len(o["writes"]) < 12 else "12+", ble_read=" ".join(o["read"].split(" ")[:2]) if not o["read"].startswith("ok") else "ok",
                  ble_fault=faults, ble_resp_frags=len(c["resp"]["lens"]))
@@ -739,7 +765,7 @@ def _run(ctx, tier, seed):
         desc = dict(stream=c["stream"], n=c["n"], vec=c["vec"], iids=c["iids"][:8], aid=c["aid"], op=c["op"],
                     datas=[hx(d)[:40] for d in c["datas"][:8]], items=[(a, b, s, hx(d)[:40]) for a, b, s, d in c["items"][:8]],
                     mal=c["mal"], response=hx(coap_response_bytes(c))[:400])
-        orc = oracle_coap(c, o) if c["stream"] == "outcomes" else []
+        orc = oracle_coap(c, o) if c["stream"] == "outcomes" else oracle_coap_request(c, o)
         for slug, text in orc:
             add_v(slug, text, True, case=desc, impl_results=o["results"][:400], impl_exits=o["exits"], impl_request=(o["request"] or "")[:200])
         em = enc_model[i]
